@@ -64,7 +64,7 @@ def symtab_coq(srcs):
         t = sym_to_coq(s)
         if t is not None:
             items.append("(%s, %s)" % (coqstr(s), t))
-    return "[" + "; ".join(items) + "]"
+    return "([" + "; ".join(items) + "] : alist expr)"
 
 
 # ---------------------------------------------------------------- dim strings
